@@ -1,7 +1,13 @@
 use std::collections::VecDeque;
 use std::fmt;
+#[cfg(not(nexosim_verif))]
 use std::sync::atomic::{AtomicBool, Ordering};
+#[cfg(nexosim_verif)]
+use crate::verif::sync::atomic::{AtomicBool, Ordering};
+#[cfg(not(nexosim_verif))]
 use std::sync::{Arc, Mutex};
+#[cfg(nexosim_verif)]
+use crate::verif::sync::{Arc, Mutex};
 
 use super::{EventSink, EventSinkStream, EventSinkWriter};
 
